@@ -1741,7 +1741,7 @@ add_error:
                             break;
                         }
                         $$ = $1;
-                        $1->v.number /= $3->v.number;
+                        $1->v.number = LPC_INT_DIV ($1->v.number, $3->v.number);
                         break;
                     }
                     if ($3->kind == NODE_REAL) {
